@@ -77,6 +77,54 @@ def import_msmart():
     return ns
 
 
+class _FormatAndDrop(logging.Handler):
+    """A handler that formats every record (as a real --debug run does) and throws the text away."""
+
+    def emit(self, record):
+        self.format(record)        # exceptions propagate to handleError below
+
+    def handleError(self, record):
+        # a StreamHandler prints a traceback and carries on; the library is still expected not to depend on it.
+        # Count it: checks may look at seams.LOG_ERRORS.
+        LOG_ERRORS.append(record.name)
+
+
+LOG_ERRORS = []
+_DEBUG_HANDLER = _FormatAndDrop()
+logging.raiseExceptions = True
+
+
+def set_logging(debug):
+    """Per run: either logging fully disabled, or every msmart logger at DEBUG with a formatting handler
+    (the situation of `msmart-ng ... --debug` or a Home Assistant debug log)."""
+    lg = logging.getLogger("msmart")
+    del LOG_ERRORS[:]
+    if debug:
+        logging.disable(logging.NOTSET)
+        lg.setLevel(logging.DEBUG)
+        if _DEBUG_HANDLER not in lg.handlers:
+            lg.addHandler(_DEBUG_HANDLER)
+        lg.propagate = False
+    else:
+        logging.disable(logging.CRITICAL)
+        lg.setLevel(logging.NOTSET)
+        if _DEBUG_HANDLER in lg.handlers:
+            lg.removeHandler(_DEBUG_HANDLER)
+        lg.propagate = True
+    # loggers cache isEnabledFor() results
+    try:
+        logging.Logger.manager._clear_cache()
+    except Exception:
+        pass
+
+
+def debug_choice(seed):
+    """One run in eight is a debug-logging run; a pure function of the plan's seed."""
+    if os.environ.get("VERIF_DEBUG_LOG") in ("0", "1"):
+        return os.environ["VERIF_DEBUG_LOG"] == "1"
+    return hashlib.sha256(b"dbg|" + str(seed).encode()).digest()[0] % 8 == 0
+
+
 class DetRandom:
     """Deterministic byte/str streams keyed by (seed, label): a function of the plan only."""
 
